@@ -26,6 +26,7 @@ import (
 	"math/rand"
 	"os"
 	"path/filepath"
+	"sync"
 	"time"
 
 	"verifharness/vlib"
@@ -43,6 +44,17 @@ type history struct {
 	// aggregator's TICKER goroutine would meet the payload that cannot be encoded (process death);
 	// the other multipart shapes would leave it to Done's flush on the handler goroutine
 	TickerFlush bool
+}
+
+var (
+	plainOnce sync.Once
+	plainBin  string
+)
+
+// plainServer builds the plain (not race-enabled) server once per run.
+func plainServer() string {
+	plainOnce.Do(func() { plainBin = buildPlainServer() })
+	return plainBin
 }
 
 func buildPlainServer() string {
